@@ -354,11 +354,67 @@ def _file_case(args):
     return cnt, out
 
 
+def _handwritten_case(args):
+    """Configuration files as a user or another program writes them: section
+    and key names in any case, values that look like something else."""
+    chunk, nchunks, scratch = args
+    from dclab.rtdc_dataset.config import Configuration
+    out = []
+    cnt = 0
+    keys = [k for k in all_keys() if k[0] not in ("user", "fmt_tdms")
+            and k[2] in ("str", "lcstr", "fint", "float", "fbool")]
+    textreps = {
+        "str": [("007", "007"), ("1e3", "1e3"), ("n", "n"), ("True", "True"),
+                ("deform", "deform"), ("plain text", "plain text"),
+                ("1,5", "1,5")],
+        "lcstr": [("ABC", "abc"), ("N", "n")],
+        "fint": [("3", 3), ("3.0", 3), ("true", 1)],
+        "float": [("2.5", 2.5), ("2", 2.0), ("1e-3", 0.001)],
+        "fbool": [("True", True), ("false", False), ("1", True), ("0", False)],
+    }
+    p = scratch / f"c11_hand_{os.getpid()}.cfg"
+    for ki in range(chunk, len(keys), nchunks):
+        sec, key, kind = keys[ki]
+        for text, exp in textreps[kind]:
+            for sname, kname in ((sec, key), (sec.capitalize(), key),
+                                 (sec.upper(), key.upper()),
+                                 (sec, key.title())):
+                cnt += 1
+                case = {"kind": "handwritten", "sec": sname, "key": kname,
+                        "text": text}
+                tags = {"type": kind, "route": "handwritten",
+                        "section_case": "lower" if sname == sec else "other",
+                        "key_case": "lower" if kname == key else "other"}
+                p.write_text(f"[{sname}]\n{kname} = {text}\n")
+                try:
+                    with warnings.catch_warnings():
+                        warnings.simplefilter("ignore")
+                        cfg = Configuration(files=[p])
+                    got = cfg[sec].get(key) if sec in cfg else None
+                    if not same(got, exp, kind):
+                        out.append(violation(
+                            "dclab.rtdc_dataset.config:load_from_file",
+                            "not-normalised", case,
+                            f"file with [{sname}] {kname} = {text}: loaded "
+                            f"{got!r} ({type(got).__name__}), documented "
+                            f"type {kind} -> {exp!r}", tags))
+                except BaseException as e:
+                    out.append(violation(
+                        "dclab.rtdc_dataset.config:load_from_file",
+                        "exception", case, f"{type(e).__name__}: {e}",
+                        dict(tags, exc=type(e).__name__)))
+    if p.exists():
+        p.unlink()
+    return cnt, out
+
+
 def run(ctx):
     nch = 16
     res = par.pmap(_memory_case, [(c, nch) for c in range(nch)])
     res += par.pmap(_reject_case, [()])
     res += par.pmap(_file_case, [(c, nch, ctx.scratch) for c in range(nch)])
+    res += par.pmap(_handwritten_case, [(c, nch, ctx.scratch)
+                                        for c in range(nch)])
     viols = []
     cnt = 0
     for n, vs in res:
@@ -394,6 +450,11 @@ def replay(case, ctx):
     keys = all_keys()
     idx = [i for i, (s, k, _) in enumerate(keys)
            if s == case["sec"] and k == case["key"]]
+    if case["kind"] == "handwritten":
+        vs = []
+        for c in range(16):
+            vs += _handwritten_case((c, 16, ctx.scratch))[1]
+        return [v for v in vs if v["case"] == case]
     if case["kind"] == "reject":
         _, vs = _reject_case(())
     elif case["kind"] == "memory":
